@@ -1346,3 +1346,247 @@ pub fn arc_prog(s: &mut Src, p: &ArcParams) -> Program {
     threads[0] = main;
     Program { threads, rx_owner: 0, arc_owner: vec![0; narcs] }
 }
+
+/// Lock convoys: one thread holds a lock while two others are (or may be) blocked on it; each
+/// waiter announces itself on an atomic counter before it asks for the lock, the holder reads the
+/// counter inside its critical section. Every order in which the waiters get the lock after the
+/// release is a distinct result (the protected counter), also when both were already blocked.
+pub fn convoy(s: &mut Src) -> Program {
+    let kind = s.pick(3);
+    let acquire = |w: bool| -> Vec<Op> {
+        match (kind, w) {
+            (0, _) => vec![Op::Lock { m: 0 }, Op::Incr { m: 0 }],
+            (_, true) => vec![Op::Write { r: 0 }],
+            (_, false) => vec![Op::Read { r: 0 }],
+        }
+    };
+    let release = |w: bool| -> Op {
+        match (kind, w) {
+            (0, _) => Op::Unlock { m: 0 },
+            (_, true) => Op::UnlockW { r: 0 },
+            (_, false) => Op::UnlockR { r: 0 },
+        }
+    };
+    // kind 1: everybody writes; kind 2: the holder writes, the waiters are a reader and a writer
+    let waiter_writes = |i: usize| kind != 2 || i == 1;
+    let mut holder: Vec<Op> = acquire(true);
+    holder.push(Op::Load { a: 0, o: MO::Sc });
+    holder.push(release(true));
+    let mut threads: Vec<Vec<Op>> = vec![vec![]];
+    for i in 0..2 {
+        let w = waiter_writes(i);
+        let mut t = vec![Op::FetchAdd { a: 0, v: 1, o: MO::Sc }];
+        t.extend(acquire(w));
+        if s.chance(1, 3) {
+            t.push(Op::Load { a: 0, o: MO::Sc });
+        }
+        t.push(release(w));
+        threads.push(t);
+    }
+    let holder_is_main = s.chance(2, 3);
+    let mut main: Vec<Op> = vec![];
+    if holder_is_main {
+        main.push(Op::Spawn { t: 1 });
+        main.push(Op::Spawn { t: 2 });
+        main.extend(holder);
+    } else {
+        threads.push(holder);
+        // the holder first, so that it usually owns the lock when the waiters arrive
+        main.push(Op::Spawn { t: 3 });
+        main.push(Op::Spawn { t: 1 });
+        main.push(Op::Spawn { t: 2 });
+    }
+    if s.chance(1, 2) {
+        for t in 1..threads.len() {
+            main.push(Op::Join { t: t as u8 });
+        }
+    }
+    threads[0] = main;
+    Program { threads, rx_owner: 0, arc_owner: vec![] }
+}
+
+/// A thread performs an operation on a lock (and releases it), spawns the other thread, yields and
+/// then sets a flag; the other thread takes the same lock and spins on the flag inside its critical
+/// section. Nothing may keep the first thread from setting the flag: it is not waiting for the lock.
+pub fn yield_after_lock_op(s: &mut Src) -> Program {
+    let kind = s.pick(4);
+    let mut main: Vec<Op> = match kind {
+        0 => vec![Op::Lock { m: 0 }, Op::Incr { m: 0 }, Op::Unlock { m: 0 }],
+        1 => vec![Op::TryLock { m: 0 }, Op::Unlock { m: 0 }],
+        2 => vec![Op::Write { r: 0 }, Op::UnlockW { r: 0 }],
+        _ => vec![Op::Read { r: 0 }, Op::UnlockR { r: 0 }],
+    };
+    let spin = s.chance(1, 2);
+    let mut child: Vec<Op> = match kind {
+        0 | 1 => vec![Op::Lock { m: 0 }, Op::Incr { m: 0 }, Op::Await { a: 0, v: 1, o: MO::Sc, spin }, Op::Unlock { m: 0 }],
+        _ => {
+            if s.chance(1, 2) {
+                vec![Op::Write { r: 0 }, Op::Await { a: 0, v: 1, o: MO::Sc, spin }, Op::UnlockW { r: 0 }]
+            } else {
+                vec![Op::Read { r: 0 }, Op::Await { a: 0, v: 1, o: MO::Sc, spin }, Op::UnlockR { r: 0 }]
+            }
+        }
+    };
+    if s.chance(1, 3) {
+        child.push(Op::Load { a: 0, o: MO::Sc });
+    }
+    main.push(Op::Spawn { t: 1 });
+    if s.chance(3, 4) {
+        main.push(Op::Yield);
+    }
+    main.push(Op::Store { a: 0, v: 1, o: MO::Sc });
+    if s.chance(1, 2) {
+        main.push(Op::Join { t: 1 });
+    }
+    Program { threads: vec![main, child], rx_owner: 0, arc_owner: vec![] }
+}
+
+/// One thread waits k times on the same `Notify`, one or two others notify j times in total.
+/// The reference allows one spurious return per Notify: with k > j + 1 every execution deadlocks.
+pub fn multi_wait(s: &mut Src) -> Program {
+    if s.chance(1, 2) {
+        // gated form: the i-th notification is issued only after the waiter came back from i-1
+        // waits (it reports each return through the channel), so a return that no notification
+        // (and not the one spurious wake-up) accounts for shows in the order of completed operations
+        let k = s.range(2, 3);
+        let mut waiter: Vec<Op> = vec![];
+        let mut notifier: Vec<Op> = vec![];
+        // (the notifier counts under a mutex before every notification but the first and the waiter
+        // reads the counter after its last wait: the lock makes "returned before the notifier got
+        // there" an order of dependent operations, which the reduction has to explore)
+        for i in 0..k {
+            waiter.push(Op::NfWait { n: 0 });
+            if i + 1 < k {
+                waiter.push(Op::Send { v: 1 + i as u8 });
+            }
+            if i > 0 {
+                notifier.push(Op::Recv);
+                notifier.extend([Op::Lock { m: 0 }, Op::Incr { m: 0 }, Op::Unlock { m: 0 }]);
+            }
+            notifier.push(Op::NfNotify { n: 0 });
+        }
+        waiter.extend([Op::Lock { m: 0 }, Op::Get { m: 0 }, Op::Unlock { m: 0 }]);
+        let waiter_is_main = s.chance(1, 2);
+        let mut main = vec![Op::Spawn { t: 1 }];
+        let child;
+        if waiter_is_main {
+            main.extend(waiter);
+            child = notifier;
+        } else {
+            main.extend(notifier);
+            child = waiter;
+        }
+        main.push(Op::Join { t: 1 });
+        return Program { threads: vec![main, child], rx_owner: if waiter_is_main { 1 } else { 0 }, arc_owner: vec![] };
+    }
+    let k = s.range(2, 4);
+    let j = s.range(1, 2);
+    let mut waiter: Vec<Op> = vec![];
+    for i in 0..k {
+        waiter.push(Op::NfWait { n: 0 });
+        if i + 1 < k && s.chance(1, 3) {
+            waiter.push(Op::FetchAdd { a: 0, v: 1, o: MO::Sc });
+        }
+    }
+    let two = j == 2 && s.chance(1, 2);
+    let mut n1: Vec<Op> = vec![];
+    let mut n2: Vec<Op> = vec![];
+    for i in 0..j {
+        let t = if two && i == 1 { &mut n2 } else { &mut n1 };
+        if s.chance(1, 3) {
+            t.push(Op::Load { a: 0, o: MO::Sc });
+        }
+        t.push(Op::NfNotify { n: 0 });
+    }
+    let waiter_is_main = s.chance(1, 2);
+    let mut threads: Vec<Vec<Op>> = vec![vec![]];
+    threads.push(n1);
+    if !n2.is_empty() {
+        threads.push(n2);
+    }
+    if !waiter_is_main {
+        threads.push(waiter.clone());
+    }
+    let n = threads.len();
+    let mut main: Vec<Op> = (1..n).map(|t| Op::Spawn { t: t as u8 }).collect();
+    if waiter_is_main {
+        main.extend(waiter);
+    }
+    for t in 1..n {
+        main.push(Op::Join { t: t as u8 });
+    }
+    threads[0] = main;
+    Program { threads, rx_owner: 0, arc_owner: vec![] }
+}
+
+/// Wake-up crossovers: a thread polls one primitive without blocking (`try_recv`, `try_lock`,
+/// an atomic load) while another thread operates on that primitive, and - depending on what the
+/// poll returned - then blocks on a *different* primitive that nobody (or somebody) signals. A wake-up
+/// credited to the wrong primitive (a park token or a runnable mark left over from the first one)
+/// turns a certain deadlock into a completed run or the other way round.
+pub fn wake_crossover(s: &mut Src) -> Program {
+    // the poll and the matching action of the other thread
+    let (poll, other, hit): (Vec<Op>, Vec<Op>, i8) = match s.pick(3) {
+        0 => (vec![Op::TryRecv], vec![Op::Send { v: 1 }], 1),
+        1 => (vec![Op::TryRecv], vec![Op::Send { v: 1 }, Op::Send { v: 2 }], 1),
+        _ => (vec![Op::Load { a: 0, o: MO::Sc }], vec![Op::Store { a: 0, v: 1, o: MO::Sc }], 1),
+    };
+    let cond = if s.chance(2, 3) { hit } else { -1 };
+    // the blocking wait that follows (skipped unless the poll returned `cond`)
+    let notified = s.chance(1, 3);
+    let mut waiter = poll.clone();
+    let mut signaller = other.clone();
+    match s.pick(4) {
+        0 => {
+            waiter.extend([Op::Lock { m: 0 }, Op::SkipNextUnless { v: cond }, Op::CvWait { cv: 0, m: 0 }, Op::Unlock { m: 0 }]);
+            if notified {
+                signaller.extend([Op::Lock { m: 0 }, Op::NotifyOne { cv: 0 }, Op::Unlock { m: 0 }]);
+            }
+        }
+        1 => {
+            waiter.extend([Op::SkipNextUnless { v: cond }, Op::Park]);
+            if notified {
+                signaller.push(Op::Unpark { t: 255 });
+            }
+        }
+        2 => {
+            waiter.extend([Op::SkipNextUnless { v: cond }, Op::NfWait { n: 0 }, Op::SkipNextUnless { v: cond }, Op::NfWait { n: 0 }]);
+            if notified {
+                signaller.push(Op::NfNotify { n: 0 });
+            }
+        }
+        _ => {
+            waiter.extend([Op::SkipNextUnless { v: cond }, Op::Recv]);
+            if notified {
+                signaller.push(Op::Send { v: 3 });
+            }
+        }
+    }
+    let waiter_is_main = s.chance(1, 2);
+    let (mut main, child) = if waiter_is_main {
+        let mut m = vec![Op::Spawn { t: 1 }];
+        m.extend(waiter);
+        (m, signaller)
+    } else {
+        let mut m = vec![Op::Spawn { t: 1 }];
+        m.extend(signaller);
+        (m, waiter)
+    };
+    let wt = if waiter_is_main { 0 } else { 1 };
+    let fix = |ops: &mut Vec<Op>| {
+        for o in ops.iter_mut() {
+            if let Op::Unpark { t } = o {
+                if *t == 255 {
+                    *t = wt;
+                }
+            }
+        }
+    };
+    let mut child = child;
+    fix(&mut main);
+    fix(&mut child);
+    if s.chance(1, 2) {
+        main.push(Op::Join { t: 1 });
+    }
+    Program { threads: vec![main, child], rx_owner: wt, arc_owner: vec![] }
+}
